@@ -434,6 +434,7 @@ async fn run_wire(sizes: &[u16], seed: u64, rep: &mut CaseReport) -> Option<(Str
         seqs: vec![1; 4],
         nat_peers: vec![],
         nat_kind: 0,
+        dual_records: false,
         foreign_enr_answer: vec![],
         v_session_timeout_ms: None,
         v_session_capacity: None,
